@@ -362,6 +362,7 @@ pub fn run(ctx: &Ctx) {
     if thorough {
         space.extend(gen::cross_family(1, false));
     }
+    space.extend(gen::many_and_sized_packets());
     let chunks: Vec<&[RefPacket]> = space.chunks(64).collect();
     par_shards(ctx, &chunks, |ps, t: &mut Tally| {
         for p in ps.iter() {
